@@ -12,7 +12,7 @@ package interp
 
 //@ func newFrame(anc, length, id) (r)
 //@   props C09 C08
-//@   requires [C09] id-inherited: anc != nil ==> id == anc.id
+//@   requires [C09,C10,C07] id-inherited: anc != nil ==> id == anc.id
 //@   requires length >= 0
 //@   ensures fresh-frame: r != nil && fresh(r) && r.id == id && r.anc == anc && len(r.data) == length
 //@   ensures root: ite(anc == nil, r.root == r, r.root == anc.root)
@@ -59,7 +59,7 @@ package interp
 //@   requires f != nil
 
 //@ lit genFunctionWrapper calls:newFrame (in) (out)
-//@   props C09 C10
+//@   props C09 C10 C07
 //@   opt loops = havoc
 //@   opt safety = off
 //@   opt opaque-calls = *
@@ -67,7 +67,7 @@ package interp
 //@   requires f != nil && n != nil && n.interp != nil
 
 //@ lit getFunc calls:newFrame (in) (out)
-//@   props C09 C10
+//@   props C09 C10 C07
 //@   opt loops = havoc
 //@   opt safety = off
 //@   opt opaque-calls = *
